@@ -5,7 +5,7 @@ import itertools
 from vlib import core
 from props import logix_common as L
 
-TYPES = ['SINT', 'INT', 'DINT', 'LINT', 'REAL', 'LREAL', 'BOOL', 'UDINT']
+TYPES = ['SINT', 'INT', 'DINT', 'LINT', 'REAL', 'LREAL', 'BOOL', 'UDINT', 'USINT', 'UINT', 'ULINT']
 
 
 def budget_elems(maxb, sz):
@@ -16,10 +16,13 @@ def configs(ctx):
     if ctx.thorough:
         types, cnts, budgets = TYPES, [1, 2, 3, 4, 5, 6, 8, 12, 20], list(range(1, 25)) + [488]
     else:
-        types, cnts, budgets = ['SINT', 'INT', 'DINT', 'LREAL', 'ULINT'], [1, 2, 3, 5, 8, 12], list(range(1, 20, 1))
+        # every element type (each has its own data parser and producer), every count, and per (type, count) 9 of the budgets 1..19 in rotation
+        types, cnts, budgets = TYPES, [1, 2, 3, 5, 8, 12], list(range(1, 20, 1))
+    k = 0
     for ty in types:
         for cnt in cnts:
-            for maxb in budgets:
+            k += 1
+            for maxb in (budgets if ctx.thorough else [b for b in budgets if (b + k) % 2 == 0]):
                 yield ty, cnt, maxb
 
 
